@@ -109,6 +109,7 @@ let header (c : cfg) (w : string list) : bool =
   | ["ntabs"; n] -> c.ntabs <- int_of_string n; true
   | "fail" :: os -> c.fails <- L.map int_of_string os; true
   | ["failfrom"; n] -> c.from <- Some (int_of_string n); true
+  | ["vsign"; _] -> true   (* sign of the driver visitor's answer; the model is sign-agnostic *)
   | _ -> false
 
 let run_case ~(vs : vers) (c : case) =
